@@ -31,17 +31,42 @@ PROGRAMS = [
     ("def t(k: Parameter[Qint[2]], a: Qint[2]) -> Qint[4]:\n\tr = 0\n\tfor i in range(2):\n\t\tr += a + k\n\treturn r", dict(k=[0, 1, 3])),
     ("def t(c: Parameter[Qint[2]], a: Qint[2], b: Qint[2]) -> bool:\n\treturn (a + b) == c", dict(c=[0, 1, 2, 3])),
     ("def t(x: Parameter[bool], y: Parameter[bool], z: Parameter[bool], a: bool) -> bool:\n\treturn (a and x) or (y ^ z)", dict(x=[True, False], y=[True, False], z=[True, False])),
+    # a parameterised function that calls another compiled function (defs): every bind() re-translates with the same definitions
+    ("def t(k: Parameter[bool], a: Qint[2]) -> Qint[2]:\n\treturn g(a) if k else a", dict(k=[True, False]), ["def g(b: Qint[2]) -> Qint[2]:\n\treturn b + 1"]),
+    ("def t(c: Parameter[Qint[2]], a: Qint[2]) -> Qint[2]:\n\treturn g(a) + c", dict(c=[0, 1, 3]), ["def g(b: Qint[2]) -> Qint[2]:\n\treturn b + 1"]),
+    ("def t(c: Parameter[Qint[2]], a: bool, b: bool) -> bool:\n\treturn h(a, b) if c == 2 else h(b, a)", dict(c=[0, 2, 3]), ["def h(x: bool, y: bool) -> bool:\n\treturn x and not y"]),
+    # results that depend on the DECLARED width of the parameter (the value alone would be typed narrower)
+    ("def t(c: Parameter[Qint[4]], a: Qint[4]) -> Qint[4]:\n\treturn (c << 2) + a", dict(c=[0, 1, 2, 3])),
+    ("def t(c: Parameter[Qint[4]], a: Qint[2]) -> Qint[4]:\n\treturn c + a", dict(c=[1, 3, 5])),
+    ("def t(c: Parameter[Qint[4]], a: Qint[4]) -> bool:\n\treturn (c + 3) > a", dict(c=[1, 2, 9])),
 ]
 
 
-def to_ref(v):
-    if isinstance(v, bool):
-        return v
-    if isinstance(v, int):
-        return pysem.s_lit(v)
-    if isinstance(v, (list, tuple)):
-        return tuple(to_ref(x) for x in v)
-    return v
+def declared(ann):
+    """type tree of a Parameter[...] annotation: ('bool',) | ('int', w) | ('seq', [trees])"""
+    if isinstance(ann, ast.Subscript) and ast.unparse(ann.value) == "Parameter":
+        return declared(ann.slice)
+    if isinstance(ann, ast.Name) and ann.id == "bool":
+        return ("bool",)
+    if isinstance(ann, ast.Subscript) and ast.unparse(ann.value) == "Qint":
+        return ("int", int(ast.unparse(ann.slice)))
+    if isinstance(ann, ast.Subscript) and ast.unparse(ann.value) == "Qlist":
+        el, n = ann.slice.elts
+        return ("seq", [declared(el)] * int(ast.unparse(n)))
+    if isinstance(ann, ast.Subscript) and ast.unparse(ann.value) == "Tuple":
+        els = ann.slice.elts if isinstance(ann.slice, ast.Tuple) else [ann.slice]
+        return ("seq", [declared(e) for e in els])
+    raise ValueError(f"parameter annotation not modelled: {ast.unparse(ann)}")
+
+
+def to_ref(v, ty):
+    """the parameter value in its DECLARED type (the property: 'the unbound Python function called with the parameters set to v' under the
+    documented fixed-width types - the declared width is the parameter's width, whatever the value)"""
+    if ty[0] == "bool":
+        return bool(v)
+    if ty[0] == "int":
+        return pysem.SInt(ty[1], int(v))
+    return tuple(to_ref(x, t) for x, t in zip(v, ty[1]))
 
 
 def param_names(src):
@@ -49,10 +74,25 @@ def param_names(src):
     return [a.arg for a in fd.args.args if "Parameter" in ast.unparse(a.annotation)], [a.arg for a in fd.args.args]
 
 
-def check_bound(src, qf, kw):
+def param_types(src):
+    fd = ast.parse(src).body[0]
+    return {a.arg: declared(a.annotation) for a in fd.args.args if "Parameter" in ast.unparse(a.annotation)}
+
+
+def build(entry, prof):
+    from qlasskit import qlassf
+    src, defs = entry[0], (entry[2] if len(entry) > 2 else [])
+    return qlassf(src, to_compile=False, bool_optimizer=prof, defs=[qlassf(d, to_compile=False) for d in defs])
+
+
+def check_bound(src, qf, kw, defs=()):
     """semantic clause for one binding; -> None or failure dict"""
     params, allargs = param_names(src)
-    fn = pysem.compile_reference(src)
+    ptypes = param_types(src)
+    ns = {}
+    for d in defs:
+        ns[ast.parse(d).body[0].name] = pysem.compile_reference(d, dict(ns))
+    fn = pysem.compile_reference(src, ns)
     et = bounded.expr_tables(qf, 12)
     names, tabs, mask = et
     rets = list(qf.returns.bitvec)
@@ -70,7 +110,7 @@ def check_bound(src, qf, kw):
             v, used = pysem.to_spec(t_, row[k:])
             vals[a_.name] = v
             k += used
-        full = [to_ref(kw[a]) if a in params else vals[a] for a in allargs]
+        full = [to_ref(kw[a], ptypes[a]) if a in params else vals[a] for a in allargs]
         pysem.Flag.overflow = False
         try:
             val = fn(*full)
@@ -93,14 +133,15 @@ def fp(qf):
 
 def job(a):
     idx, profile = a
-    src, space = PROGRAMS[idx]
+    src, space = PROGRAMS[idx][:2]
+    defs = PROGRAMS[idx][2] if len(PROGRAMS[idx]) > 2 else []
     from qlasskit import qlassf
     t0 = time.time()
     key = hashlib.sha1(src.encode()).hexdigest()[:8]
     base = dict(strength="bounded", backend="truth-table", program=src)
     prof = bounded.profiles()[profile]
     out = []
-    uq = qlassf(src, to_compile=False, bool_optimizer=prof)
+    uq = build(PROGRAMS[idx], prof)
     dump0 = ast.dump(uq.fun_ast)
     params0 = dict(uq.parameters)
     of0 = uq.original_f
@@ -118,7 +159,7 @@ def job(a):
         except Exception as ex:  # noqa
             bad = dict(parameters=str(kw), observed=f"bind raises {type(ex).__name__}: {ex}"[:200])
             break
-        f = check_bound(src, qf, kw)
+        f = check_bound(src, qf, kw, defs)
         if f:
             bad = f
             break
@@ -129,7 +170,7 @@ def job(a):
     out.append(res(nm, PROVED, secs=time.time() - t0, bindings=len(combos), nontrivial=True, **base) if not bad else
                res(nm, REFUTED, secs=time.time() - t0, replayed=True, replay=dict(program=src, profile=profile, **bad), **base))
     # history clause: v1, v2, v1 again, interleaved with another unbound object; each equals a bind on a fresh object
-    other = qlassf(PROGRAMS[(idx + 1) % len(PROGRAMS)][0], to_compile=False, bool_optimizer=prof)
+    other = build(PROGRAMS[(idx + 1) % len(PROGRAMS)], prof)
     ospace = PROGRAMS[(idx + 1) % len(PROGRAMS)][1]
     okw = {k: v[0] for k, v in ospace.items()}
     seq = [combos[0], combos[-1], combos[0], combos[len(combos) // 2], combos[0]]
@@ -138,7 +179,7 @@ def job(a):
         kw = dict(zip(names, combo))
         got = fp(uq.bind(**kw))
         other.bind(**okw)
-        fresh = fp(qlassf(src, to_compile=False, bool_optimizer=prof).bind(**kw))
+        fresh = fp(build(PROGRAMS[idx], prof).bind(**kw))
         if got != fresh:
             hist_bad = dict(history=[str(dict(zip(names, c))) for c in seq[:step + 1]], observed=str(got)[:500], expected=str(fresh)[:500])
             break
